@@ -63,6 +63,17 @@ void drv_c13(int tier, unsigned long seed, const char *extra) {
       callf("mpf_ui_sub", 2, u, 0); callf("mpf_sub_ui", 2, 0, u); callf("mpf_add_ui", 2, 0, u); callf("mpf_set", 3, 0); callf("mpf_ui_sub", 3, u, 3); callf("mpf_set", 3, 0); callf("mpf_sub_ui", 3, 3, u);
       callf("mpf_set_ui", 1, u); callf("mpf_sub", 2, 1, 0); callf("mpf_sub", 2, 0, 1); callf("mpf_cmp_ui", 0, u); callf("mpf_div_ui", 2, 0, u); callf("mpf_ui_div", 2, u, 0);
     }
+    /* ... and from below: v = u - tiny = (u-1).ffff..f tail (the exponents differ by one limb when u = 1: 1.000 - 0.fff..) */
+    for (j = 0; j < 6; j++) {
+      int n = (int)PREC(Fp[0]) + 1 > 7 ? 7 : (int)PREC(Fp[0]) + 1, k; mp_limb_t a[8]; char *h; uint64_t u = j < 3 ? 1 : (j == 3 ? 2 : (rnd64() | 2));
+      if (n < 2) continue;
+      for (k = 0; k < 8; k++) a[k] = ~(mp_limb_t)0;
+      a[0] = (j & 1) ? rnd64() | 1 : ~(mp_limb_t)0 << (int)rnd_below(64);
+      if (u == 1) { h = hex_of_limbs(a, n - (j == 2), 0); callf("drv_setf", 0, h, (int64_t)0); free(h); }
+      else { a[n - 1] = u - 1; h = hex_of_limbs(a, n, 0); callf("drv_setf", 0, h, (int64_t)1); free(h); }
+      callf("mpf_ui_sub", 2, u, 0); callf("mpf_sub_ui", 2, 0, u); callf("mpf_set", 3, 0); callf("mpf_ui_sub", 3, u, 3); callf("mpf_set", 3, 0); callf("mpf_sub_ui", 3, 3, u);
+      callf("mpf_set_ui", 1, u); callf("mpf_sub", 2, 1, 0); callf("mpf_sub", 2, 0, 1); callf("mpf_neg", 3, 0); callf("mpf_add_ui", 2, 3, u); callf("mpf_cmp_ui", 0, u);
+    }
     /* conversions and precision history */
     { static const double ds[] = {0.0, 1.0, -0.5, 0.1, 1e300, -1e-300, 4.9406564584124654e-324, 123456789.125, -9007199254740993.0, 1.7976931348623157e308};
       for (j = 0; j < 10; j++) { callf("mpf_set_d", 2, ds[j]); callf("mpf_cmp_d", 2, ds[(j + 3) % 10]); callf("mpf_get_d", 2); }
